@@ -73,6 +73,17 @@ def project_all(out):
     return main + ['closes: ' + ' '.join(closes), 'frees: ' + ' '.join(frees)]
 
 
+def project_pair(impl_out, model_out):
+    """comparable views of the two traces.  When the model declares that it does not follow the C code from some point on
+    (`UNMODELLED …`, e.g. loop_stop working on a context object a callback already released) only the part before that point is
+    compared; the oracles still judge the whole implementation trace."""
+    a, b = project_all(impl_out), project_all(model_out)
+    k = next((i for i, o in enumerate(b) if o.startswith('UNMODELLED')), None)
+    if k is None:
+        return a, b
+    return a[:k], b[:k]
+
+
 class Gen:
     """mostly-valid random programs over the core API, with nested callback bodies"""
 
@@ -107,16 +118,22 @@ class Gen:
             return self.r.choice(usable)      # malformed stream: wrong state / zombie handle
         return None
 
-    def body(self, d):
-        """a callback body followed by its `ret`"""
+    def body(self, d, m=None):
+        """a callback body followed by its `ret`; `m`: the module whose hook is (believed to be) running — hooks that act on
+        their own module (a start hook that pauses, stops or deregisters itself and then refuses, …) are the re-entrant
+        cases the lifecycle properties quantify over"""
+        refuse = self.r.random() < 0.2
+        if m is not None and not m.get('gone') and self.r.random() < 0.3:
+            self.w('%s %s' % (self.r.choice(['stop', 'stop', 'pause', 'dereg', 'start', 'resume']), m['tok']))
+            refuse = self.r.random() < 0.6
         if d < self.depth:
             for _ in range(self.r.choice([0, 0, 1, 1, 2, 3])):
                 self.op(d + 1)
-        self.w('ret %d' % (0 if self.r.random() < 0.2 else 1))
+        self.w('ret %d' % (0 if refuse else 1))
 
     def maybe_hook(self, m, hook, d, p=0.85):
         if hook in m['hooks'] and self.r.random() < p:
-            self.body(d)
+            self.body(d, m)
 
     def op(self, d=0):
         r = self.r
@@ -186,10 +203,16 @@ class Gen:
         elif a == 'stash':
             m = self.pick('R')
             if not m: return
-            if r.random() < 0.5: self.w('stash %s %d' % (m['tok'], r.randrange(0, 3)))
+            c = r.random()
+            if c < 0.35: self.w('stash %s %d' % (m['tok'], r.randrange(0, 3)))
+            elif c < 0.5:
+                # a handler that puts aside everything it was given
+                for i in range(r.randrange(2, 4)): self.w('stash %s %d' % (m['tok'], i))
             else:
-                self.w('unstash %s %d' % (m['tok'], r.randrange(0, 4)))
-                if r.random() < 0.6: self.body(d)
+                # hand back in slices: the remainder must stay stashed, in order
+                for _ in range(r.choice([1, 1, 2, 3])):
+                    self.w('unstash %s %d' % (m['tok'], r.choice([0, 1, 1, 2, 3, 9])))
+                    if r.random() < 0.7: self.body(d)
         elif a == 'batch':
             m = self.pick()
             if not m: return
@@ -331,28 +354,37 @@ def gen_script(rng, alphabet, n_ops, max_mods=4, depth=2, teardown=0.4):
         # complete teardown, then the harness checks that nothing the library allocated or opened is left
         # (`ret` lines close callback bodies that may be opened by the teardown itself; at top level they are ignored)
         g.lines += ['quit 0', 'dispatch'] + ['ret 1'] * 4 + ['ctx_dereg'] + ['ret 1'] * 6 + ['leakcheck']
+    k = first_illformed(g.lines)
+    if k is not None:
+        g.lines = g.lines[:k]      # the generator's bookkeeping is approximate inside callbacks: cut at the first precondition violation
     return g.lines
 
 
-def wellformed_core(lines):
-    """API preconditions a script must respect (ddmin candidates violating them are not tests): a handle is not used once
-    no reference is left (user dropped its extra reference and the module was deregistered); a descriptor is handed to the
-    library for duplication at most once (the model numbers the duplicate after the descriptor)"""
-    unref, gone, dupped = set(), set(), set()
+def first_illformed(lines):
+    """index of the first line that violates an API precondition a script must respect, or None.  A handle is not used
+    once no reference is left (the user dropped its extra reference and called m_mod_deregister, in either order);
+    a descriptor is handed to the library for duplication at most once (the model numbers the duplicate after the
+    descriptor); nothing follows the leak check (it drops every reference)."""
+    unref, dereged, dupped = set(), set(), set()
     for i, l in enumerate(lines):
         t = l.split()
         if not t: continue
-        if t[0] == 'leakcheck' and i != len(lines) - 1: return False    # the check drops every reference: nothing may follow
+        if t[0] == 'leakcheck' and i != len(lines) - 1: return i + 1
         toks = t[2:] if t[0] == 'foreign' else t
+        if not toks: continue
         hs = [x for x in toks[1:3] if x.startswith('h') and x[1:].isdigit()]
-        if any(h in gone for h in hs): return False
+        if toks[0] == 'reg': hs = []
+        if any(h in unref and h in dereged for h in hs): return i
         if toks[0] == 'unref' and len(toks) == 2: unref.add(toks[1])
-        if toks[0] == 'dereg' and len(toks) == 2 and toks[1] in unref: gone.add(toks[1])
-        if toks[0] == 'unref' and len(toks) == 2 and toks[1] in gone: return False
+        if toks[0] == 'dereg' and len(toks) == 2 and t[0] != 'foreign': dereged.add(toks[1])
         if toks[0] == 'reg_fd' and len(toks) == 5 and 'd' in toks[3]:
-            if toks[2] in dupped: return False
+            if toks[2] in dupped: return i
             dupped.add(toks[2])
-    return True
+    return None
+
+
+def wellformed_core(lines):
+    return first_illformed(lines) is None
 
 
 # ---------------------------------------------------------------------------------------------------
